@@ -296,7 +296,10 @@ func c20Enumerate(tier string, f func(c20Scenario)) {
 		for _, policy := range []string{"replace", "ignore", "error"} {
 			for _, bi := range []bool{false, true} {
 				for _, par := range pars {
-					for _, x := range []string{"", "future"} {
+					// expiry of the snapshot's subject key: none, in the future, already past when the
+					// replay runs (replace: the old value must not survive - the key is gone at once;
+					// ignore: the old key stays as it is; error: the replay still has to fail)
+					for _, x := range []string{"", "future", "past"} {
 						for _, sp := range priors {
 							for _, compOld := range []bool{false, true} {
 								for _, subjFirst := range []bool{true, false} {
